@@ -11,13 +11,13 @@ reg("C05",
 reg("C04",
     "bounded exhaustive enumeration of bound(...) option assignments to all priority levels (deviation-bounded over 6 options, full products over 3 options) on the real expander, against the reference resolution rule ref_bounds",
     "Every assignment within the bound is expanded by the repository's own entry functions (both entry points) and the where-clause of every generated impl is compared, as a set of predicates, with the documented nine-level resolution (helper / per-trait / shared x type / variant / field; one slot per recognised comparison helper attribute at each placement; optional key placement). Exhaustive within the bound, never sampled.",
-    "Bound: probe shapes enum X<T>{A(F1<T>,F2<T>),B(F3<T>)} / struct X<T>(F1<T>,F2<T>) with slots on the type, variant A and field A.0; quick: <=2 non-absent levels over 6 options + full 3-option products for 9 small configurations; thorough: <=3 non-absent levels + more full products. The textual form of default/Type bounds is calibrated on the implementation (semantic adequacy is C03's).",
+    "Bound: probe shapes enum X<T>{A(F1<T>,F2<T>),B(F3<T>)} / struct X<T>(F1<T>,F2<T>) with slots on the type, variant A and field A.0, plus enum X<T>{U,B(F3<T>)} with the variant slots on the field-less variant U; quick: <=2 non-absent levels over 6 options + full 3-option products for 9 small configurations; thorough: <=3 non-absent levels + more full products. The textual form of default/Type bounds is calibrated on the implementation (semantic adequacy is C03's).",
     "DESIGN.md 5/C04")
 
 reg("C01",
     "bounded exhaustive enumeration of type definitions x accepted helper-attribute placements x trait subsets x entry points, compiled with the real proc-macro and executed on ALL ordered pairs of the full value product, against a reference interpreter of the documented lexicographic rule",
     "Each terminal state is a complete program compiled by real rustc against the repository's proc-macro dylib and executed; the ==, !=, partial_cmp and cmp results for every ordered pair of the enumerated value domain are compared with ref_eq/ref_partial_cmp/ref_cmp (documented precedence with distinguishable key/by functions per attribute, incl. a NaN-like partial key). Exhaustive within the bound, never sampled.",
-    "Bound: M1 single configured field over all accepted combinations of the 784 (ord,partial_ord,eq,partial_eq) alphabet in 3 (quick) / 16 (thorough) container x context positions; M2 15 trait subsets x 2 entry points; M3 up to 3/4 fields over a 6/8-letter alphabet, 4 shapes, generic and partially ordered field types; value domains 6 (configured) / 2-4 (others).",
+    "Bound: M1 single configured field over all accepted combinations of the 784 (ord,partial_ord,eq,partial_eq) alphabet in 3 (quick) / 16 (thorough) container x context positions; M2 15 trait subsets x 2 entry points; M3 up to 3/4 fields over a 6/8-letter alphabet, 4 shapes, generic and partially ordered field types; value domains 6 (configured) / 2-4 (others); one key may be the identity `$`; generic M3 types also with an explicit shared bound(..).",
     "DESIGN.md 5/C01")
 reg("C02",
     "bounded exhaustive enumeration of the 3136 per-field attribute combinations (one consistent key) x supertrait-closed trait subsets x containers, every combination the real expander accepts compiled and executed, model-free coherence laws checked on ALL pairs and triples of the value domain",
@@ -27,34 +27,34 @@ reg("C02",
 reg("C06",
     "bounded exhaustive enumeration of (hash, eq, ord) attribute combinations x trait sets x containers x entry points and multi-field shapes, compiled with the real proc-macro and executed on EVERY value with a recording Hasher, against reference feeds",
     "Each terminal state is compiled by real rustc against the repository's proc-macro and executed; the recorded write_* sequence for every value of the enumerated domain must equal the concatenation of the reference-selected effective inputs, and for all same-variant pairs feeds are equal iff the reference effective-input vectors are equal. Exhaustive within the bound, never sampled.",
-    "Bound: 112 combinations x 4 trait sets x 3 (quick) / 16 (thorough) container positions x 2 entry points; multi-field shapes with 1..3/4 fields over a 7-letter alphabet; I4 (no discriminant in the feed).",
+    "Bound: 112 combinations x 4 trait sets x 3 (quick) / 16 (thorough) container positions x 2 entry points; multi-field shapes with 1..3/4 fields over a 7-letter alphabet; one key may be the identity `$`; I4 (no discriminant in the feed).",
     "DESIGN.md 5/C06")
 
 reg("C07",
     "bounded exhaustive enumeration of struct/enum shapes x field flavours x entry points, compiled with the real proc-macro and executed on every variant and ALL ordered variant pairs with call-recording field types, against the reference clone / clone_from traces",
     "Each shape is compiled by real rustc against the repository's proc-macro and executed; the log of Clone::clone / clone_from calls (with unique field identities), the resulting value and the untouched source are compared with the reference for clone of every variant and clone_from of every ordered pair of variants. A program that fails to compile is a violation. Exhaustive within the shape bound.",
-    "Bound: quick Sh(3 variants, 2 fields), thorough Sh(4, 3); flavours: concrete Rec fields, generic X<T> (T / RecG<T>), derive_ex(Copy, Clone) with Copy + logging-Clone fields; non-alphabetical field names.",
+    "Bound: quick Sh(3 variants, 2 fields), thorough Sh(4, 3); flavours: concrete Rec fields, generic X<T> (T / RecG<T>), derive_ex(Copy, Clone) with Copy + logging-Clone fields, explicit Clone(bound(T: Clone)) on the type or the first field, raw-identifier field names; non-alphabetical field names.",
     "DESIGN.md 5/C07")
 reg("C08",
     "exhaustive enumeration of the 22 operator traits x struct body shapes x field flavours x entry points, compiled with the real proc-macro and executed on all 9 operand pairs in every owned/reference form, against the field-wise reference",
     "Each case is compiled by real rustc against the repository's proc-macro and executed; results, per-field call logs with (lhs_is_ref, rhs_is_ref) and the unchanged borrowed operands are compared with the reference for every form of the trait. A program that fails to compile is a violation. Exhaustive within the bound.",
-    "Bound: quick 6 body shapes, thorough all 11 (0..4 fields); flavours Fm (free monoid recording operand order), generic T := Fm, Wrapping<i8> (non-shift operators).",
+    "Bound: quick 6 body shapes, thorough all 11 (0..4 fields); flavours Fm (free monoid recording operand order), generic T := Fm, Wrapping<i8> (non-shift operators), raw-identifier field names, the trait in a second stacked derive_ex list.",
     "DESIGN.md 5/C08")
 reg("C09",
     "exhaustive enumeration of operators x base forms of the user impl x Rhs spellings x requested sets x generic/non-generic, compiled with the real proc-macro and executed on all 9 operand pairs in every generated form, against the forwarding reference",
     "Each case is compiled by real rustc against the repository's proc-macro and executed; results, the multiset of user-impl calls and operand clones, and unchanged borrowed operands are compared with the reference for every form that must exist. A program that fails to compile is a violation (generics, where-clause, Output and Self carry-over). Exhaustive within the bound.",
-    "Bound: quick Sub and Shl in full + the other 8 operators on the owned base with {Op, OpAssign}; thorough the full product (800 cases).",
+    "Bound: quick Sub and Shl in full + the other 8 operators on the owned base with {Op, OpAssign}, both list orders (Op, OpAssign / OpAssign, Op); thorough the full product.",
     "DESIGN.md 5/C09")
 reg("C10",
     "bounded exhaustive enumeration of shapes x per-field marks {plain, ignore, transparent} x generic x entry points, compiled with the real proc-macro and executed on every value x 14 format specs against a std-derived twin; rejection of two transparent fields checked on the in-process expander",
     "Each case is compiled by real rustc against the repository's proc-macro and executed; for every value of the per-field domains and each of 14 formatter-flag combinations the string must equal what #[derive(Debug)] prints for the twin with the ignored fields deleted (or the transparent field alone). Cases with two transparent fields in one struct/variant must be rejected by the expander. Exhaustive within the bound.",
-    "Bound: quick Sh(2,2) with <=2 marked fields, thorough Sh(3,3) with <=3 marked fields (<=6 fields in 3-variant enums); field types i32 / &str / f64 / nested struct; transparent+ignore on one field is only explored where unambiguous (rejection).",
+    "Bound: quick Sh(2,2) with <=2 marked fields, thorough Sh(3,3) with <=3 marked fields (<=6 fields in 3-variant enums); field types i32 / &str / f64 / nested struct; transparent+ignore on one field is only explored where unambiguous (rejection); raw-identifier field names; Debug(bound(T: Debug)) on generic types.",
     "DESIGN.md 5/C10")
 
 reg("C14",
     "bounded exhaustive enumeration of items with interleaved foreign / helper-named / derive_ex attributes at type, variant and field placement x derived lists x visibility x generics, plus a family of failing inputs, expanded by the real expander and compared token-for-token with the expected re-emitted item",
     "Every terminal state is expanded by the repository's own attribute-macro entry function; the first output item must equal the input minus exactly the attributes the documentation assigns to the derived traits (strict, also when a derivation then fails), and on inputs whose derive list cannot be understood or whose item kind is unsupported the item must still be present with its foreign content and structure intact next to a compile_error!. Exhaustive within the bound.",
-    "Bound: quick <=2 deviations (attributes placed + non-default visibility/generics) over a 21-attribute pool, sequences up to length 3, plus all interleavings of <=3 attributes of a 6-letter pool at one placement; thorough <=3 deviations and <=4-attribute interleavings; 44 failing / unsupported / impl inputs. Behavioural rustc binding of the re-emitted item is not built (channel E only).",
+    "Bound: quick <=2 deviations (attributes placed + non-default visibility/generics) over a 21-attribute pool, sequences up to length 3, plus all interleavings of <=3 attributes of a 6-letter pool at one placement; thorough <=3 deviations and <=4-attribute interleavings; 44 failing / unsupported / impl inputs; 12 behavioural survivor programs through real rustc (repr via size/alignment/discriminants, cfg_attr-gated and neighbouring std derives, visibility, generic defaults, where-clause, non_exhaustive, allow); the <=1-attribute slice through real rustc with dump (pipeline conformance).",
     "DESIGN.md 5/C14")
 reg("C15",
     "exhaustive enumeration, per seed item (generators + test-suite/documentation corpus), of the other entry point, all splits of the trait list (breadth-first over split operations with a seen-set), all sub-lists containing a trait whose helper attributes all affect it, permutations, and shared-bound splits; token equality of every trait's impls with the merged baseline on the real expander",
@@ -70,7 +70,7 @@ reg("C11",
 reg("C16",
     "explicit-state breadth-first search over structure-aware mutations of the seed corpus (every derive_ex item of the test-suite and documentation + generator output) with a seen-set on canonical token text; every reached state expanded twice by the real expander",
     "Every state (entry point, argument list, item) reached within the depth bound is expanded twice in-process under catch_unwind: no panic, the output parses as Rust items, every macro item is a compile_error! with a non-empty message, and both expansions are textually identical (fresh RandomState per expansion exposes hash-order dependence). States, transitions and per-depth counts are reported; a state cap sets exhaustive=false if hit.",
-    "Bound: depth 1 (quick, ~45k states) / depth 2 (thorough, ~6M states) over delete/duplicate/swap/replace of attributes, arguments (one nesting level), fields, variants, generic parameters; where/generics deletion; renaming to raw / generator-used identifiers; entry switch; unsupported item kinds. Termination is observed only as completion of the run (no per-state watchdog).",
+    "Bound: depth 1 (quick, ~45k states) / depth 2 (thorough, ~6M states) over delete/duplicate/swap/replace of attributes, arguments (one nesting level), fields, variants, generic parameters; where/generics deletion; renaming to raw / generator-used identifiers; entry switch; unsupported item kinds. Each state runs under a watchdog (60 s): a hang is reported as expansion-does-not-terminate with a replay file.",
     "DESIGN.md 5/C16")
 reg("C19",
     "exhaustive enumeration, per seed item, of dump placements (shared, each single trait, first+last, all-but-first, on impl items, on one of two derive_ex lists) x entry points on the real expander, comparing the dumped text token-for-token with the code generated without dump",
@@ -110,5 +110,5 @@ reg("C12",
 reg("C03",
     "bounded exhaustive enumeration of trait forms x containers x 1..3 fields x field types over the parameters x used/unused mechanisms x declared where-clause x entry points; each case compiled with the real proc-macro and executed: the applicability of the derived impl over EVERY instantiation of the parameters by probe types is compared with a twin carrying the reference where-clause",
     "For every terminal state the derived impl and a hand-written marker impl `where W_ref` on a structurally identical twin are probed (impls!) on every instantiation of the parameters by probe types implementing chosen subsets of the traits / operator reference forms; rustc's trait solver evaluates both, so equivalent but differently written bounds raise no alarm. A twin that compiles while the derive_ex program does not is a violation (a needed bound is missing).",
-    "Bound: quick 14 trait forms (9 plain traits, Add / Shl in 4 forms, SubAssign in 2, Neg / Not in 2), 12 field types, <=2 fields (27k cases, ~25 s); thorough all 31 trait forms, 16 field types, <=3 fields. Probe domains: {Yes, No}, {Yes, No, Own(owned operator forms only)}, {Yes, AY, AN} for T: Tr; U in {Yes, No}; N = 2; 'a = 'static.",
+    "Bound: quick 14 trait forms (9 plain traits, Add / Shl in 4 forms, SubAssign in 2, Neg / Not in 2), 12 field types, <=2 fields (27k cases, ~25 s); thorough all 31 trait forms, 16 field types, <=3 fields. Probe domains: {Yes, No}, {Yes, No, Own(owned operator forms only)}, {Yes, AY, AN} for T: Tr; U in {Yes, No}; N = 2; 'a = 'static. Declared bounds mentioning Self (where Self: Marker, Option<Self>: Marker, T: PartialEq<Vec<Self>>) are compile-only cases.",
     "DESIGN.md 5/C03")
